@@ -411,7 +411,8 @@ class Interp:
             self.tasks[tkn] = task
             si = self.scope_inst_of.get(id(scope), -1)
             self.scope_tasks.setdefault(si, []).append(task)
-            self.emit(label, 'spawn', [si, lbl, 1 if vol else 0, 0, 0, 1])
+            # (its own tag: a payload without code has no first turn, no `tfin` - the clauses about children's code do not apply)
+            self.emit(label, 'spawnp', [si, lbl, 1 if vol else 0, 0, 0, 1])
             self.task_by_label[lbl] = task
         elif h == 'cancel':
             t = self.tasks.get(s[1])
